@@ -383,12 +383,15 @@ class Gen:
             return o, "C01:" + tag
 
         if cat == "C02":
-            tags = ["reward+1", "reward+big", "reward_wrong_fees", "out_zero", "out_over_max", "out_u64max", "outs_exceed_inputs", "total_over_max"]
+            tags = ["reward+1", "reward+big", "reward_wrong_fees", "out_zero", "out_over_max", "out_u64max", "outs_exceed_inputs", "total_over_max", "reward_wraparound"]
             tag = r.choice(tags)
             if tag == "reward+1":
                 o["reward"] = {"delta": 1, "shape": r.choice(["one", "split"])}
             elif tag == "reward+big":
                 o["reward"] = {"delta": r.choice([2, 1000, 10 ** 9, MAX_SASHIMI])}
+            elif tag == "reward_wraparound":
+                # outputs [2^64 - x, allowed + x]: the sum equals the allowed amount only if amounts wrap around / are read as signed
+                o["reward"] = {"delta": 0, "shape": "wrap", "x": r.choice([1, 1000, 10 ** 12, 1 << 62])}
             elif tag == "reward_wrong_fees":
                 # fees as another state would compute them: claims more than this block's transactions leave
                 o["reward"] = {"delta": r.choice([1, 5000, 123456789])}
